@@ -6,7 +6,7 @@ import os
 from tfv import core
 from tfv.core import Violation, run_async
 from tfv.data import RefProvider, Tree
-from tfv.impl import Harness, RequestState, clean_registry, nid_of
+from tfv.impl import Harness, RequestState, clean_registry, nid_of  # noqa: F401 (clean_registry re-exported)
 from tfv.model import canon, print_document
 from tfv.mutate import mutants
 from tfv.props import c01, c02
@@ -72,9 +72,9 @@ def new_state(schema, req, rid=0):
     return rs
 
 
-def build_request(c, schema, plan):
+def build_request(c, schema, plan, doc_opts=None):
     """-> request spec with events drawn and reference expectations computable"""
-    spec, gstats = c01.build_request(c, schema, plan, DOC_OPTS)
+    spec, gstats = c01.build_request(c, schema, plan, doc_opts or DOC_OPTS)
     tree = Tree(schema, c, None)
     root = schema["roots"]["subscription"]
     n = c.weighted([(1, 0), (2, 1), (2, 2), (3, 3), (2, 4)])
